@@ -25,7 +25,7 @@ man = {
     }],
     "checks": [],
     "not_applicable": [],
-    "notes": "Exit codes of every check: 0 all obligations discharged (or only listed known findings remain), 1 counter-model (VIOLATION line), 2 undecided, 3 checker broke. Bounded stand-ins run in the thorough tier only and are reported under coverage.bounded_standins, never counted in discharged.",
+    "notes": "Exit codes of every check: 0 all obligations discharged (or only listed known findings remain), 1 counter-model (VIOLATION line), 2 undecided, 3 checker broke. Bounded native stand-ins run in both tiers (the C04 tail sums in the thorough tier and on demand), are reported under coverage.bounded_standins and printed as BOUNDED-CHECK / BOUNDED-FALLBACK lines, and are never counted in discharged; a stand-in that finds a failing input reports a VIOLATION whose replay file holds its output.",
 }
 for p in props:
     pid = p["id"]
